@@ -353,6 +353,17 @@ func runEncoding(e *Enc, fn *ssa.Function, props []string) {
 	// frame clauses: decided on the computed write effects (transitive over callees)
 	if sp != nil && f.depth == 0 {
 		for _, fc := range sp.Frames {
+			if fc.Text == "deterministic" {
+				hit := P.nondetSources(fn)
+				o := &Oblig{Name: e.Key + "#frame[deterministic: no map iteration, clock, random source, process id or select reachable]", Kind: "frame", Props: fc.Props, Func: e.Key, Pos: fmt.Sprintf("%s:%d", filepath.Base(sp.File), fc.Line), Reach: tTrue, Goal: tFalse, enc: e}
+				if len(hit) == 0 {
+					o.Result = &SolveResult{Status: "unsat", Backend: "effects-analysis"}
+				} else {
+					o.Result = &SolveResult{Status: "unknown", Backend: "effects-analysis", Output: "reachable: " + strings.Join(hit, ", ")}
+				}
+				e.obligs = append(e.obligs, o)
+				continue
+			}
 			if strings.HasPrefix(fc.Text, "region ") {
 				// backing arrays of slices: decided by the region analysis
 				pats := strings.Fields(fc.Text)[1:]
@@ -433,4 +444,48 @@ func globMatch(pat, s string) bool {
 		s = s[k+len(parts[i]):]
 	}
 	return strings.HasSuffix(s, parts[len(parts)-1])
+}
+
+// nondetSources lists sources of nondeterminism reachable from fn (static
+// call graph): iteration over a map, select, clocks, random numbers, pids.
+func (P *Program) nondetSources(fn *ssa.Function) []string {
+	seen := map[*ssa.Function]bool{}
+	var out []string
+	ra := P.regions()
+	var walk func(f *ssa.Function)
+	walk = func(f *ssa.Function) {
+		if seen[f] {
+			return
+		}
+		seen[f] = true
+		for _, b := range f.Blocks {
+			for _, in := range b.Instrs {
+				switch x := in.(type) {
+				case *ssa.Range:
+					if _, isMap := x.X.Type().Underlying().(*types.Map); isMap {
+						out = append(out, funcKey(f)+": range over a map")
+					}
+				case *ssa.Select:
+					out = append(out, funcKey(f)+": select")
+				case *ssa.Go:
+					out = append(out, funcKey(f)+": go statement")
+				case ssa.CallInstruction:
+					if sc := x.Common().StaticCallee(); sc != nil && P.Funcs[funcKey(sc)] != sc {
+						n := externName(sc)
+						for _, bad := range []string{"time.", "math/rand.", "os.Getpid", "os.Environ", "crypto/rand."} {
+							if strings.HasPrefix(n, bad) {
+								out = append(out, funcKey(f)+": call of "+n)
+							}
+						}
+					}
+					for _, t := range ra.targets(f, x.Common()) {
+						walk(t)
+					}
+				}
+			}
+		}
+	}
+	walk(fn)
+	sort.Strings(out)
+	return out
 }
